@@ -100,7 +100,28 @@ def run(F, R, tier):
     if R.anchor("SymbolTable::define", df):
         txt = H.render(H.body_of(df))
         R.note("define: %s" % ("appends to the name's symbol list and increments num_definitions" if ".push(Rc::clone(&symbol))" in txt and "self.num_definitions += 1" in txt else "?"))
-        R.ob("define-index", "a new symbol takes index num_definitions, which is then incremented", "self.num_definitions, depth" in txt.replace("\n", "") and "self.num_definitions += 1" in txt, txt[:160], F.loc(df))
+        # every definition gets a slot of its own: the index of the Symbol built by define() is the table's running
+        # count on every path, and every return is behind the increment of that count.  Reusing the slot of an earlier
+        # binding of the same name lets code compiled against the earlier binding (a function written between two
+        # `let x`) read and write the later one.
+        B = M.Body(df)
+        news = [(bi, b["term"]) for bi, b in enumerate(B.blocks) if not b.get("cleanup") and b["term"]["k"] == "call" and (b["term"].get("callee") or "").endswith("symtab::Symbol::new")]
+        idx_ok, idx_txt = bool(news), []
+        for bi, t in news:
+            a = B.sym_op(t["args"][2], through_vars=True) if len(t["args"]) > 2 else ("?",)
+            sh = M.show(a)
+            idx_txt.append(sh)
+            if sh.replace(" ", "") not in ("*self.num_definitions", "self.num_definitions", "(*self).num_definitions"):
+                idx_ok = False
+        incs = set()
+        for bi, b in enumerate(B.blocks):
+            for st in b["stmts"]:
+                if st.get("k") == "assign" and any(isinstance(pp, dict) and pp.get("n") == "num_definitions" for pp in st["lhs"]["p"]):
+                    incs.add(bi)
+        free = M.reachable_avoiding(B, 0, incs)
+        rets = sorted(free & M.return_blocks(B))
+        R.ob("define-index", "a new symbol takes index num_definitions, which is then incremented", idx_ok and bool(incs) and not rets,
+             "index argument of Symbol::new: %s; returns reachable without incrementing num_definitions: %s" % (idx_txt, rets), F.loc(df))
     # ---- (b) pairing -----------------------------------------------------------------------------------------------------------
     cb = F.fn(C + "compile_block_statement")
     if R.anchor(C + "compile_block_statement", cb):
